@@ -341,6 +341,9 @@ func (ex *Exec) strBinop(op token.Token, x, y Value) Value {
 	}
 	if op == token.ADD {
 		if isOpaque(x) || isOpaque(y) {
+			if r, ok := ex.tmplConcat(x, y); ok {
+				return r
+			}
 			return opaqueStr
 		}
 		b := append(append([]Value{}, strBytes(x)...), strBytes(y)...)
@@ -392,6 +395,9 @@ func (ex *Exec) strEq(x, y Value) Value {
 		return xs == ys
 	}
 	if isOpaque(x) || isOpaque(y) {
+		if r, ok := ex.tmplEq(x, y); ok {
+			return r
+		}
 		panic(abortPath{"comparison of opaque string"})
 	}
 	a, b := strBytes(x), strBytes(y)
@@ -874,6 +880,14 @@ func (ex *Exec) callBuiltin(th *Thread, caller *frame, fn *ssa.Builtin, args []V
 	case "len":
 		switch x := args[0].(type) {
 		case string, *SymStr:
+			if s, ok := x.(*SymStr); ok && s.tmpl != nil {
+				// length of a template string: skeleton plus 1..20 digits per integer (over-approximation)
+				lo := s.tmpl.minLen()
+				hi := lo + 19*len(s.tmpl.ints)
+				n := ex.newAux("tmpllen", 64)
+				ex.addAxiom(ex.ts.And(ex.ts.Cmp(TULe, ex.ts.Const(uint64(lo), 64), n), ex.ts.Cmp(TULe, n, ex.ts.Const(uint64(hi), 64))))
+				return n
+			}
 			return uint64(strLen(x))
 		case Slice:
 			return uint64(x.len)
